@@ -334,7 +334,7 @@ def groups(tier):
     for spaced in (False, True):
         g.append(dict(name='ring-reader/spaced=%s' % spaced, harness=h_ring, params=dict(spaced=spaced), no_validate=True))
     for nsp in ((1, 2, 3) if th else (1, 2)):
-        for fmt in ('.2f', '.3f', '.1f'):
+        for fmt in ('.2f', '.3f', '.1f', '.0f'):        # '.0f' is what the Chemkin writers use
             for space in (False, True):
                 for delim in ('+', '.', ' + '):
                     if not th and (fmt != '.2f') and (space or delim != '+'):
